@@ -17,7 +17,7 @@ Fixpoint bad_ghost (i : nat) (cs : list (nat * nat * nat * list (list Z) * list 
 (* nn.Embedding: case (pad, V, L, D, ids, g) -> [ghost_sq; true_sq] on Z *)
 Definition emb_case (c : option nat * nat * nat * nat * list nat * list (list Z)) : list Z :=
   let '(pad, V, L, D, ids, g) := c in
-  [ghost_sq_embedding pad L D (fun t => nth t ids O) (at2 g); true_norm_sq_embedding pad V L D (fun t => nth t ids O) (at2 g)].
+  [ghost_sq_embedding (fun _ => 1%Z) pad L D (fun t => nth t ids O) (at2 g); true_norm_sq_embedding (fun _ => 1%Z) pad V L D (fun t => nth t ids O) (at2 g)].
 Fixpoint bad_emb (i : nat) (cs : list (option nat * nat * nat * nat * list nat * list (list Z) * list Z)) : list nat :=
   match cs with
   | [] => []
